@@ -421,9 +421,72 @@ class Inliner:
         return out
 
 
+class _IfExpToIf(ast.NodeTransformer):
+    """``x = a if c else b`` / ``return a if c else b`` / ``x op= a if c else b`` / ``yield a if c else b`` become if/else
+    statements, so that a conditional expression and the equivalent if/else statement are one and the same to every rule
+    (the CFG atomises the condition, control dependence applies to each arm)."""
+
+    def __init__(self) -> None:
+        self.count = 0
+
+    def _split(self, st: ast.stmt, value: ast.IfExp, make) -> ast.If:
+        self.count += 1
+        a, b = make(value.body), make(value.orelse)
+        new = ast.If(test=value.test, body=[self.visit(ast.copy_location(a, st))], orelse=[self.visit(ast.copy_location(b, st))])
+        new._xsa_ifexp = True  # type: ignore[attr-defined]
+        return ast.copy_location(new, st)
+
+    def visit_FunctionDef(self, node):
+        self.generic_visit(node)
+        return node
+
+    def _flatten(self, x):
+        return x
+
+    def visit_Assign(self, st: ast.Assign):
+        if isinstance(st.value, ast.IfExp) and not any(isinstance(n, (ast.NamedExpr, ast.Yield, ast.YieldFrom, ast.Await)) for n in ast.walk(st)):
+            return self._split(st, st.value, lambda v: ast.Assign(targets=copy.deepcopy(st.targets), value=v))
+        return st
+
+    def visit_AnnAssign(self, st: ast.AnnAssign):
+        if isinstance(st.value, ast.IfExp) and isinstance(st.target, ast.Name):
+            return self._split(st, st.value, lambda v: ast.AnnAssign(target=copy.deepcopy(st.target), annotation=copy.deepcopy(st.annotation), value=v, simple=st.simple))
+        return st
+
+    def visit_AugAssign(self, st: ast.AugAssign):
+        if isinstance(st.value, ast.IfExp):
+            return self._split(st, st.value, lambda v: ast.AugAssign(target=copy.deepcopy(st.target), op=st.op, value=v))
+        return st
+
+    def visit_Return(self, st: ast.Return):
+        if isinstance(st.value, ast.IfExp):
+            return self._split(st, st.value, lambda v: ast.Return(value=v))
+        return st
+
+    def visit_Expr(self, st: ast.Expr):
+        if isinstance(st.value, ast.Yield) and isinstance(st.value.value, ast.IfExp):
+            return self._split(st, st.value.value, lambda v: ast.Expr(value=ast.Yield(value=v)))
+        return st
+
+    def visit_Lambda(self, node):
+        return node
+
+
+def normalize_conditionals(repo: "Repo") -> int:
+    t = _IfExpToIf()
+    for fi in repo.functions.values():
+        before = t.count
+        fi.node.body = [x for st in fi.node.body for x in [t.visit(st)]]
+        if t.count != before:
+            ast.fix_missing_locations(fi.node)
+    return t.count
+
+
 def inline_private_helpers(repo: "Repo") -> dict:
+    n = normalize_conditionals(repo)
     inl = Inliner(repo)
     inl.run()
+    inl.stats["conditional_expressions_split"] = n
     return inl.stats
 
 
